@@ -27,6 +27,10 @@ def stepC14 (s : Unit) (ws : List String) : Unit × Resp :=
       let r := scaledForMaxHash (maxHashForScaled n)
       (s, { model := toString r, spec := if n ≤ pow31 then toString n else "-" })
     else (s, { model := "bad-op" })
+  -- exhaustive walks done by the real code alone; the theorems `roundtrip` / `maxHash_antitone`
+  -- are the model-side counterpart, so the model column is empty and the spec demands zero failures
+  | ["sweep", _, _] => (s, { model := "-", spec := "fail=0 first=0" })
+  | ["monosweep", _, _] => (s, { model := "-", spec := "fail=0 first=0" })
   | ["mono", a, b] =>
     let a := a.toNat!; let b := b.toNat!
     let (lo, hi) := if a ≤ b then (a, b) else (b, a)
